@@ -217,6 +217,7 @@ func init() {
 		fr.w.absFloatArith = liftBool(args[0]) == trueT
 		return nil
 	})
+	reg(zz+"ClockAdvance", func(fr *frame, args []Value) Value { return nil })
 	reg(zz+"OpaqueParseFloat", func(fr *frame, args []Value) Value {
 		fr.w.opaqueParseFloat = liftBool(args[0]) == trueT
 		return nil
